@@ -123,6 +123,11 @@ class C01(Prop):
             case = {"k": "codec", "bulk": rng.random() < 0.7, "events": evs, "off": 0}
             for be in storelib.BACKENDS:
                 out.append(("codec-json-types", {**case, "backend": be}))
+        # bulk inserts larger than any batch the stores use internally (100), of sizes no batch size divides
+        for n in ((101, 257) if ctx.quick else (101, 199, 250, 257, 1001)):
+            evs = [[None, T0 + j * 1000, 1000 + j, DATAS[j % len(DATAS)]] for j in range(n)]
+            for be in storelib.BACKENDS:
+                out.append(("codec-big-bulk", {"k": "codec", "bulk": True, "events": evs, "off": 0, "backend": be}))
         # texts that JSON carries only escaped (half of a surrogate pair: a title cut in the middle of an emoji; NUL) or that some
         # tools take for line ends; the model's strings are UTF-8, so these are judged on the real stores alone
         ODD = ["\ud83d", "half \ude00 pair", "nul\x00char", "line\u2028sep\u2029", "\x7f\x80\ufffe", "caf\u00e9 \U0001f600"]
